@@ -511,7 +511,7 @@ func fieldStoredInto(al *ssa.Alloc, name string) ssa.Value {
 }
 
 func extractOf(v ssa.Value, lk *ssa.Lookup) bool {
-	ex, ok := v.(*ssa.Extract)
+	ex, ok := resolveLocal(v).(*ssa.Extract)
 	return ok && ex.Tuple == lk && ex.Index == 0
 }
 
